@@ -138,6 +138,19 @@ impl CoreDocumentData {
     Ok(())
   }
 
+  /// The number of entries in each of the method and service collections.
+  fn collection_sizes(&self) -> [usize; 7] {
+    [
+      self.verification_method.len(),
+      self.authentication.len(),
+      self.assertion_method.len(),
+      self.key_agreement.len(),
+      self.capability_delegation.len(),
+      self.capability_invocation.len(),
+      self.service.len(),
+    ]
+  }
+
   // Apply the provided fallible functions to the DID components of `id`, `controller`, methods and services
   // respectively.
   fn try_map<F, G, H, L, E>(
@@ -887,9 +900,18 @@ impl CoreDocument {
     L: FnMut(CoreDID) -> std::result::Result<CoreDID, E>,
     M: FnOnce(crate::Error) -> E,
   {
+    let sizes = self.data.collection_sizes();
     let data = self
       .data
       .try_map(id_update, controller_update, methods_update, service_update)?;
+    // The collections are re-collected into sets: two entries mapped to the same identifier would otherwise be
+    // merged silently.
+    if data.collection_sizes() != sizes {
+      return Err(error_cast(Error::InvalidDocument(
+        "attempted to map document to one with duplicated method or service identifiers",
+        None,
+      )));
+    }
     CoreDocument::try_from(data).map_err(error_cast)
   }
 
